@@ -349,6 +349,60 @@ def rule_val(rep, idx):
     rep.add('R5', 'ValDecl::getValue-guarded', ok, 'xcmp.hpp xcmp::ConstProp', detail)
 
 
+def rule_val_reference(rep, idx, rid='R14'):
+    """Propagation of val names, at the point where it takes effect: the code generated for a reference to a val."""
+    rep.rule(rid, 'a reference to a val name is generated as the load of the value constant propagation attached to it -- also when the '
+             'expression optimiser has meanwhile replaced the declaration\'s initialiser (a folded ~=, >=, > or <= becomes fresh nodes '
+             'that carry no value): ExprCodeGen::visitPost(VarRefExpr&) interpreted on a constant reference whose symbol is the val '
+             'declaration as the optimiser leaves it, compared with what genConst emits for that value', floor=6)
+    from .c01 import CodeGenModel
+    from ..ivinterp import Moved
+    f = idx.func('xcmp::CodeBuffer::ExprCodeGen::visitPost', 'VarRefExpr')
+    where = pos(f.node) + ' xcmp::CodeBuffer::ExprCodeGen::visitPost(VarRefExpr&)'
+    gc = [m for m in idx.record('xcmp::CodeBuffer').methods if m.name == 'genConst' and m.body is not None]
+    if not gc:
+        rep.undecided(rid, 'genConst', 'xcmp::CodeBuffer::genConst not found', where)
+        return
+    for op in [None] + list(BINOPS):
+        key = 'val r = %s' % ('7' if op is None else '5 %s 3' % op)
+        try:
+            M = CodeGenModel(idx, 'A')
+            X = M.X
+            init = X.const_prop(X.num(7) if op is None else X.binop(op, X.num(5), X.num(3)))
+            V = init.fields.get('constValue')
+            if not (isinstance(V, IV) and V.concrete()):
+                rep.undecided(rid, key, 'constant propagation gives the initialiser no concrete value (%r)' % (V,), where)
+                continue
+            opt = X.visitor('xcmp::OptimiseExpr')
+            X.visit_post(opt, init)
+            new = opt.fields.get('exprReplacement')
+            if isinstance(new, Moved):
+                new = new.value
+            left = new if isinstance(new, Obj) else init
+            decl = M.I.construct('xcmp::ValDecl', [None, ('str', 'r'), left], name='val r')
+            X.fix_containers(decl)
+            sym = M.symbol('r', 'VAL', 'f')
+            sym.fields['node'] = decl
+            ref = X.var('r')
+            ref.fields['constValue'] = V
+            X.visit_post(M.expr_visitor('A'), ref)
+            got = [(t, d.fields.get('immValue'), d.fields.get('label')) for t, d in M.instrs()]
+            M2 = CodeGenModel(idx, 'A')
+            M2.I.invoke(gc[0], M2.cb, [const(32, True, M2.regs['A']), const(32, True, V.lo if V.lo < (1 << 31) else V.lo - (1 << 32))])
+            want = [(t, d.fields.get('immValue'), d.fields.get('label')) for t, d in M2.instrs()]
+        except Thrown as e:
+            rep.add(rid, key, False, where, 'code generation for the reference fails: %s' % e.what)
+            continue
+        except (NeedSplit, AnalysisBroken, KeyError, AttributeError, TypeError) as e:
+            rep.undecided(rid, key, 'not interpreted: %r' % (e,), where)
+            continue
+        state = 'constant' if left.fields.get('constValue') is not None else 'replaced by nodes without a value (%s)' % X.show(left)
+        ok = (repr(got) == repr(want))
+        rep.add(rid, key, ok, where, ('initialiser after the optimiser: %s; the reference loads %d as genConst does' % (state, V.lo)) if ok else
+                'initialiser after the optimiser: %s; the reference, whose value is %d, generates %s where the constant load is %s: the '
+                'program reads a storage location the val never had' % (state, V.lo, [g[0] for g in got], [w[0] for w in want]))
+
+
 def rule_scoped_propagation(rep, idx, rid='R9'):
     """Names are resolved by scope: a local, formal or procedure may hide a global val of the same name.  Every compile-time value that
     ConstProp attaches to a name reference must therefore come out of SymbolTable::lookup(current scope, name) -- the one place that
@@ -520,6 +574,7 @@ def run(rep, tier):
     from . import c01
     c01.rule_register_discipline(rep, idx, 'R4')
     rule_val(rep, idx)
+    rule_val_reference(rep, idx)
     rule_scoped_propagation(rep, idx)
     rule_genconst(rep, idx)
     # R7: constants inside a larger, non-constant expression (import of the template execution of C01-R11 for the shapes with a constant)
